@@ -891,6 +891,7 @@ func (c *Conn) handleReturn(ctx context.Context, ret rpccp.Return, releaseRet ca
 		q.p.Reject(pr.err)
 		q.bootstrapPromise.Fulfill(q.p.Answer().Client())
 		q.p.ReleaseClients()
+		clearCapTable(ret.Message())
 		releaseRet()
 		c.mu.Lock()
 	case q.bootstrapPromise == nil && pr.err != nil:
@@ -899,6 +900,7 @@ func (c *Conn) handleReturn(ctx context.Context, ret rpccp.Return, releaseRet ca
 		q.release = func() {}
 		c.mu.Unlock()
 		q.p.Reject(pr.err)
+		clearCapTable(ret.Message())
 		releaseRet()
 		c.mu.Lock()
 	default:
@@ -1157,7 +1159,11 @@ func (c *Conn) recvPayload(payload rpccp.Payload) (_ capnp.Ptr, locals uintSet, 
 		var err error
 		mtab[i], local, err = c.recvCap(ptab.At(i))
 		if err != nil {
-			releaseList(mtab[:i]).release()
+			// The clients materialized so far must not be released here:
+			// the caller is holding c.mu and releasing an import locks
+			// it again.  Leave them in the message's capability table,
+			// which the caller clears once it has let go of c.mu.
+			payload.Message().CapTable = mtab[:i]
 			return capnp.Ptr{}, nil, annotate(err).errorf("read payload: capability %d", i)
 		}
 		if local {
